@@ -367,7 +367,7 @@ class C11(diffcheck.DiffProp):
     prop_file = "prop/C11.v"
     model_name = "c11"
     harness_bin = "c11"
-    features = ["io"]
+    package = "pure"
     gen = gen_c11
     counts = {"quick": 3000, "thorough": 60000}
     uses_consts = True
